@@ -1,6 +1,7 @@
 import CaoModel.Driver.StackEngine
 import CaoModel.Driver.MapEngine
 import CaoModel.Driver.ValueEngine
+import CaoModel.Driver.CompileEngine
 open Cao Cao.Driver
 
 structure DState where
@@ -16,6 +17,7 @@ def step (d : DState) (line : String) : DState × String :=
   | "bstack" :: args => let (s, o) := bstackStep d.bstack args; ({ d with bstack := s }, o)
   | "hm" :: args => let (s, o) := hmStep d.hm args; ({ d with hm := s }, o)
   | "val" :: args => (d, valStep args)
+  | "cmp" :: args => (d, cmpStep args)
   | "tbl" :: args => let (s, o) := tblStep d.tbl args; ({ d with tbl := s }, o)
   | "ht" :: args => let (s, o) := htStep d.ht args; ({ d with ht := s }, o)
   | _ => (d, "bad-op")
